@@ -2,6 +2,7 @@ package rules
 
 import (
 	"fmt"
+	"os"
 	"go/types"
 	"sort"
 	"strings"
@@ -20,6 +21,7 @@ func init() {
 		Run: func(c *Ctx) {
 			ruleGlobals(c, "R1")
 			ruleGlobalsDoNotEscape(c, "R2")
+			ruleGlobalsNotSharedIntoInstances(c, "R2b")
 			rulePool(c, "R3")
 		},
 	})
@@ -522,4 +524,223 @@ func isZeroConst(k *ssa.Const) bool {
 		return true
 	}
 	return k.Value.ExactString() == `""` || k.Value.ExactString() == "0" || k.Value.ExactString() == "false"
+}
+
+// paramFate summarises what a module function does with parameter #i: it may
+// write through it, or let it escape (store it, return it, capture it).
+type paramFate struct{ writes, escapes bool }
+
+func (c *Ctx) paramFates() map[*ssa.Function][]paramFate {
+	out := map[*ssa.Function][]paramFate{}
+	funcs := c.libFuncs()
+	for _, f := range funcs {
+		out[f] = make([]paramFate, len(f.Params))
+	}
+	derived := func(f *ssa.Function, i int) map[ssa.Value]bool {
+		// values that alias the parameter (conversions, phis)
+		set := map[ssa.Value]bool{f.Params[i]: true}
+		for changed := true; changed; {
+			changed = false
+			an.AllInstrs(f, func(in ssa.Instruction) {
+				v, ok := in.(ssa.Value)
+				if !ok || set[v] {
+					return
+				}
+				switch x := in.(type) {
+				case *ssa.ChangeType:
+					if set[x.X] {
+						set[v], changed = true, true
+					}
+				case *ssa.MakeInterface:
+					if set[x.X] {
+						set[v], changed = true, true
+					}
+				case *ssa.Phi:
+					for _, e := range x.Edges {
+						if set[e] {
+							set[v], changed = true, true
+						}
+					}
+				}
+			})
+		}
+		return set
+	}
+	for changed := true; changed; {
+		changed = false
+		for _, f := range funcs {
+			for i := range f.Params {
+				fate := out[f][i]
+				set := derived(f, i)
+				an.AllInstrs(f, func(in ssa.Instruction) {
+					switch x := in.(type) {
+					case *ssa.Store:
+						if set[x.Val] {
+							fate.escapes = true
+						}
+						if g := rootValue(x.Addr); set[g] && x.Addr != g {
+							fate.writes = true
+						}
+					case *ssa.MapUpdate:
+						if set[rootValue(x.Map)] {
+							fate.writes = true
+						}
+						if set[x.Value] || set[x.Key] {
+							fate.escapes = true
+						}
+					case *ssa.Return:
+						for _, r := range x.Results {
+							if set[r] {
+								fate.escapes = true
+							}
+						}
+					case *ssa.MakeClosure:
+						for _, b := range x.Bindings {
+							if set[b] {
+								fate.escapes = true
+							}
+						}
+					}
+					if call := an.CallOf(in); call != nil {
+						if b, ok := call.Value.(*ssa.Builtin); ok && (b.Name() == "delete" || b.Name() == "clear") && set[rootValue(call.Args[0])] {
+							fate.writes = true
+						}
+						g := an.StaticCallee(call)
+						if _, isBuiltin := call.Value.(*ssa.Builtin); isBuiltin {
+							return
+						}
+						for _, m := range inPlaceSliceMutators {
+							if an.CalleeName(call) == m && len(call.Args) > 0 && set[rootValue(call.Args[0])] {
+								fate.writes = true
+							}
+						}
+						for ai, a := range an.CallArgs(call) {
+							if !set[a] {
+								continue
+							}
+							if g != nil && an.InModule(g) && len(out[g]) > ai {
+								if out[g][ai].writes {
+									fate.writes = true
+								}
+								if out[g][ai].escapes {
+									fate.escapes = true
+								}
+							} else if g == nil {
+								fate.escapes = true // passed to an unknown function value
+							}
+						}
+					}
+				})
+				if fate != out[f][i] {
+					if os.Getenv("MUXLINT_DEBUG_FATES") != "" {
+						fmt.Println("fate", an.FuncKey(f), i, fate)
+					}
+					out[f][i] = fate
+					changed = true
+				}
+			}
+		}
+	}
+	return out
+}
+
+// rootValue strips field/index selectors and loads down to the base pointer value.
+func rootValue(v ssa.Value) ssa.Value {
+	for i := 0; i < 20; i++ {
+		switch x := v.(type) {
+		case *ssa.FieldAddr:
+			v = x.X
+		case *ssa.IndexAddr:
+			v = x.X
+		case *ssa.UnOp:
+			if _, isGlobal := x.X.(*ssa.Global); isGlobal {
+				return v
+			}
+			if _, isAlloc := x.X.(*ssa.Alloc); isAlloc {
+				return v
+			}
+			v = x.X
+		case *ssa.ChangeType:
+			v = x.X
+		default:
+			return v
+		}
+	}
+	return v
+}
+
+// ruleGlobalsNotSharedIntoInstances is C07.R2b: a package-level pointer/map/slice is
+// never stored into an instance, captured, or handed to code that writes through it.
+func ruleGlobalsNotSharedIntoInstances(c *Ctx, rule string) {
+	c.R.Rule(c.R.Property+"."+rule, 2, "instances share no mutable state: a package-level pointer, map or slice is never built into an instance or handed to code that mutates it")
+	fates := c.paramFates()
+	for _, f := range c.libFuncs() {
+		if isInitFunc(f) {
+			continue
+		}
+		an.AllInstrs(f, func(in ssa.Instruction) {
+			ld, ok := in.(*ssa.UnOp)
+			if !ok {
+				return
+			}
+			g, isG := ld.X.(*ssa.Global)
+			if !isG || !strings.HasPrefix(g.Pkg.Pkg.Path(), an.ModulePath) {
+				return
+			}
+			switch ld.Type().Underlying().(type) {
+			case *types.Pointer, *types.Map, *types.Slice:
+			default:
+				return
+			}
+			if isSyncSafeType(ld.Type()) {
+				return
+			}
+			name := g.Pkg.Pkg.Name() + "." + g.Name()
+			bad := ""
+			var follow func(v ssa.Value, depth int)
+			follow = func(v ssa.Value, depth int) {
+				if depth > 4 || v.Referrers() == nil {
+					return
+				}
+				for _, r := range *v.Referrers() {
+					switch x := r.(type) {
+					case *ssa.Store:
+						if x.Val == v {
+							bad = "stored at " + c.pos(x)
+						}
+					case *ssa.MapUpdate:
+						if x.Value == v {
+							bad = "stored into a map at " + c.pos(x)
+						}
+					case *ssa.MakeClosure:
+						bad = "captured by a closure at " + c.pos(x)
+					case *ssa.MakeInterface:
+						follow(x, depth+1)
+					case *ssa.ChangeType:
+						follow(x, depth+1)
+					case *ssa.Phi:
+						follow(x, depth+1)
+					}
+					if call := an.CallOf(r); call != nil {
+						callee := an.StaticCallee(call)
+						for ai, a := range an.CallArgs(call) {
+							if a != v {
+								continue
+							}
+							if callee != nil && an.InModule(callee) && ai < len(fates[callee]) {
+								if fates[callee][ai].escapes {
+									bad = "handed to " + an.FuncKey(callee) + ", which keeps it (" + c.pos(r) + ")"
+								}
+								if fates[callee][ai].writes {
+									bad = "handed to " + an.FuncKey(callee) + ", which writes through it (" + c.pos(r) + ")"
+								}
+							}
+						}
+					}
+				}
+			}
+			follow(ld, 0)
+			c.R.Add(rule, c.fk(f), "use:"+name+"/not-shared-into-instances", c.pos(in), bad == "", ifelse(bad == "", "read-only, non-escaping use", "the package-level "+name+" is "+bad+": distinct instances now share (and mutate) one object"))
+		})
+	}
 }
